@@ -20,7 +20,7 @@ pub const SPEC: PropSpec = PropSpec {
 	],
 	cases: (50_000_000, 4_000_000_000),
 	secs: (30, 600),
-	required: &["valid_decoded_ok", "malformations_rejected", "prefixes_rejected", "layouts_with_negative_blocks"],
+	required: &["valid_decoded_ok", "valid_skipped_ok", "malformations_rejected", "prefixes_rejected", "layouts_with_negative_blocks"],
 	run_case,
 	once: None,
 	panics_are_violations: true,
@@ -120,6 +120,27 @@ pub fn run_case(ctx: &mut Ctx, case_seed: u64) {
 			);
 			return;
 		}
+	}
+	// a valid encoding is also valid for a target that wants none of it: skipping must succeed and stop at the same place
+	{
+		let (r, used) = de_slice_seed(&schema, &bytes, &lim, std::marker::PhantomData::<serde::de::IgnoredAny>);
+		let mut rd = crate::io::ChunkedBufRead::new(&bytes, sched.clone());
+		let r2 = de_reader_seed(&schema, &mut rd, &lim, std::marker::PhantomData::<serde::de::IgnoredAny>);
+		let bad = match (&r, &r2) {
+			(Err(e), _) => Some(format!("slice {}", err_sig(e))),
+			(_, Err(e)) => Some(format!("reader {}", err_sig(e))),
+			(Ok(_), Ok(_)) if used != bytes.len() || rd.pos != bytes.len() => Some("wrong-consumption".to_owned()),
+			_ => None,
+		};
+		if let Some(b) = bad {
+			ctx.violation(
+				format!("valid-encoding-not-skipped {b}"),
+				case_seed,
+				describe(json!({"slice": format!("{:?}", r.as_ref().map(|_| used)), "reader": format!("{:?}", r2.as_ref().map(|_| rd.pos)), "schedule": sched})),
+			);
+			return;
+		}
+		ctx.count("valid_skipped_ok");
 	}
 	ctx.count("valid_decoded_ok");
 	ctx.distinct_bytes(&[&shape_hash(&rs).to_le_bytes(), &bytes]);
